@@ -41,8 +41,13 @@ pub fn run(cfg: &RunCfg, trace: bool) -> RunOut {
         _ => false,
     };
     run_loop(cfg, trace, false, &mut |cx, i, op, before, want, got, snaps| {
+        let faulted_step = fault_window(cx, i);
         if i == 0 {
             return false;
+        }
+        let tripped = faulted_step && cx.built[0].ctl.fault.lock().unwrap().tripped;
+        if tripped {
+            cx.out.count("probe.c12.step_with_injected_failure");
         }
         let shape = cx.shape.clone();
         let tcl = op_tclass(before, op);
@@ -63,10 +68,18 @@ pub fn run(cfg: &RunCfg, trace: bool) -> RunOut {
         for e in &errs {
             cx.out.count("probe.c12.errors_inspected");
             if let Some((k, d)) = check_error(e, op) {
-                let key = format!("C12|{}|{}|{}|{}", shape, op.kind(), tcl, k);
-                cx.violate(i, key, format!("step {} {:?}: {}", i, op, d));
+                let key = format!("C12|{}|{}|{}|{}{}", shape, op.kind(), tcl, k, if tripped { "|under-injected-failure" } else { "" });
+                cx.violate(i, key, format!("step {} {:?}{}: {}", i, op, if tripped { " (one underlying call failed with an injected I/O error)" } else { "" }, d));
                 return true;
             }
+            if tripped {
+                cx.out.count("probe.c12.errors_inspected_under_injected_failure");
+            }
+        }
+        if tripped {
+            // the classification rules are about the fault-free contract; the state after a
+            // failed composite is unspecified (C20), so the run ends here
+            return true;
         }
         // classification
         if let Op::SetTime(p, f, ..) = op {
